@@ -67,7 +67,7 @@ func (g *aolGen) topic() string {
 
 func (g *aolGen) text(max int) string {
 	if g.clean {
-		return pick(g.r, []string{"", "x", "hello", "desc-1", "a b", "caf\xc3\xa9"})
+		return pick(g.r, []string{"", "", "", "x", "hello", "desc-1", "a b", "caf\xc3\xa9"})
 	}
 	switch g.r.Intn(12) {
 	case 0:
@@ -140,6 +140,11 @@ func (g *aolGen) msg() (string, []int) {
 	case k < 15:
 		o := g.signerAddr(94)
 		t := g.topic()
+		if len(g.topics) > 0 && g.r.Chance(30) { // create an existing topic again
+			kk := pick(g.r, sortedKeys(g.topics))
+			p := strings.SplitN(kk, "/", 2)
+			o, t = p[0], p[1]
+		}
 		if g.clean {
 			g.topics[o+"/"+t] = true
 		}
@@ -304,6 +309,9 @@ func genAolHistory(r *RNG, nBlocks int) []string {
 			g.add("ENDTX")
 		}
 		g.add("ENDBLOCK")
+		if r.Chance(12) {
+			g.add("EXPORTIMPORT")
+		}
 		g.add("DUMP aol")
 		// queries: a sample of topics / writers / records, including absent and malformed ones
 		for q := 0; q < 4; q++ {
